@@ -126,7 +126,7 @@ func genTransport(g *rand.Rand, tier string) any {
 	case 1:
 		p.Mode = g.IntN(3)
 	case 2:
-		p.Mode = g.IntN(8)
+		p.Mode = g.IntN(9)
 	}
 	if p.Mode == 2 {
 		m := 1 + g.IntN(5)
@@ -669,7 +669,7 @@ func execHTTPTransport(e *Env, p *TransportParams) {
 		return "addr-" + src, nil
 	}
 	idleTimeout, cleanEvery := 4*time.Minute, time.Minute
-	if p.Mode%8 == 7 {
+	if p.Mode%9 == 7 {
 		// short timeouts, not whole seconds: idle means idle for the timeout, no sooner
 		idleTimeout = []time.Duration{900 * time.Millisecond, 1900 * time.Millisecond, 2500 * time.Millisecond, 10 * time.Second}[p.TickAt%4]
 		cleanEvery = idleTimeout / 3
@@ -712,7 +712,37 @@ func execHTTPTransport(e *Env, p *TransportParams) {
 			return false
 		}
 	}
-	switch p.Mode % 8 {
+	switch p.Mode % 9 {
+	case 8:
+		// a stale handle: connection X to an unreachable peer fails a Write and drops out
+		// of the registry; the application asks for a connection to that address again (Y)
+		// and keeps using X somewhere else; X's next failed Write must not take Y down
+		env := genEnvelope(p.EnvSeeds[0], true, false)
+		ctx, cancel := context.WithCancel(context.Background())
+		e.OnTeardown(cancel)
+		x := A.NewConnection("addr-unreachable")
+		e1 := x.Write(ctx, env)
+		y := A.NewConnection("addr-unreachable")
+		var rerr error
+		rdone := false
+		e.Go("http.stale.reader", func() { _, rerr = y.Read(ctx); rdone = true })
+		e.NoAutoAdvance = true
+		defer func() { e.NoAutoAdvance = false }()
+		if rr := e.Drive(nil); rr == Crashed || rr == StepLimit {
+			return
+		}
+		e2 := x.Write(ctx, env)
+		if rr := e.Drive(nil); rr == Crashed || rr == StepLimit {
+			return
+		}
+		e.Note("nontrivial")
+		e.Note("http.stale-handle")
+		if e1 == nil || e2 == nil {
+			e.Violate(prop, "write-success-on-rejected-post", "http.Write", "a Write to an unreachable peer reported success (%v, %v)", e1, e2)
+		}
+		if rdone {
+			e.Violate(prop, "successor-closed-by-stale-handle", "http.Write", "connection Y to an address was neither idle nor cancelled, yet its reader failed with %v: a failed Write on X, an earlier connection to the same address that had already dropped out of the registry, unregistered whatever is registered under the address now", rerr)
+		}
 	case 7:
 		// a connection that carried an envelope half a timeout ago is not idle: cleaner
 		// ticks in between leave it alone and the next envelope is delivered
